@@ -5,21 +5,33 @@
 import MTVerif.Driver.Codec
 import MTVerif.Model.TdSize
 import MTVerif.Model.Witness
+import MTVerif.Model.Rewrite
 namespace MT
 open Sexp
 
 structure DState where
-  hier : List (ClassId × List ClassId) := []
+  hier : List (ClassId × List ClassId × List ClassId) := []   -- class, direct bases, mro
 
-def DState.sub (st : DState) (c d : ClassId) : Bool :=
-  match st.hier.lookup c with
-  | some mro => mro.contains d
-  | none => c == d || d == objectC
+def DState.H (st : DState) : Hier where
+  mro c := match st.hier.lookup c with | some (_, m) => m | none => [c, objectC]
+  bases c := match st.hier.lookup c with | some (b, _) => b | none => [objectC]
 
-def hierOf (xs : List Sexp) : Except String (List (ClassId × List ClassId)) :=
+def DState.sub (st : DState) (c d : ClassId) : Bool := st.H.sub c d
+
+def hierOf (xs : List Sexp) : Except String (List (ClassId × List ClassId × List ClassId)) :=
   xs.mapM (fun x => match x with
-    | .list (c :: ms) => do .ok (← natOf c, ← ms.mapM natOf)
+    | .list [c, .list bs, .list ms] => do .ok (← natOf c, ← bs.mapM natOf, ← ms.mapM natOf)
     | _ => .error "bad hier entry")
+
+def rwOf : Sexp → Except String RW
+  | .atom "removeEmpty" => .ok .removeEmpty
+  | .atom "configDict" => .ok .configDict
+  | .atom "generator" => .ok .generator
+  | .atom "mscb" => .ok .mscb
+  | .atom "anonTD" => .ok .anonTD
+  | .atom "generic" => .ok .generic
+  | .list [.atom "largeUnion", n] => do .ok (.largeUnion (← natOf n))
+  | s => .error s!"bad rewriter {s}"
 
 def handle (st : DState) (req : Sexp) : Except String (DState × Sexp) :=
   match req with
@@ -42,6 +54,8 @@ def handle (st : DState) (req : Sexp) : Except String (DState × Sexp) :=
       .ok (st, sexpOfTy (tdToDict (← tyOf t)))
   | .list (.atom "mkUnion" :: ts) => do
       .ok (st, sexpOfTy (mkUnion (← ts.mapM tyOf)))
+  | .list [.atom "rewrite", .list rs, t] => do
+      .ok (st, sexpOfTy (rewriteChain st.H (← rs.mapM rwOf) (← tyOf t)))
   | .list [.atom "tdOk", k, t] => do
       .ok (st, sexpOfBool ((← tyOf t).tdOk (← natOf k)))
   | .list [.atom "hasTD", t] => do
